@@ -6,8 +6,8 @@ package main
 
 import (
 	"fmt"
-	"os"
 	"go/types"
+	"os"
 
 	"golang.org/x/tools/go/ssa"
 )
